@@ -19,8 +19,11 @@ LEVEL = ('narrow: decides four code-shape facts two of whose violations were con
          'profile (H10). the time point of a pointwise hole explanation lies in the profile and in the'
          " task's run (H11 WITNESS-POINT, decided on a window). incremental insertion handles gap and "
          'overlap for every overlapped profile (H13 MUST-PASS on the loop); reasons assembled from '
-         'several profiles are the union of their parts (H14 = C17-L21). Everything else about the 144'
-         ' variants — in particular the numbers they compute and zero-duration tasks — is NOT decided')
+         'several profiles are the union of their parts (H14 = C17-L21). No loop-free path through a '
+         'from-scratch builder avoids the capacity comparison (H3 MUST-PASS); tasks leave a profile '
+         'only where a mandatory part is undone (H15); the per-profile explanation cache is '
+         'initialised from the profile only (H16). Everything else about the 144 variants — in '
+         'particular the numbers they compute and zero-duration tasks — is NOT decided')
 TECHNIQUE = "static analysis: must-pass / sentinel taint / dominance rules over rustc MIR"
 
 
